@@ -830,6 +830,129 @@ class Statics:
             self.ob(pid, q, "network-calls-inside-thread-try", bool(gets) and inside, "a requests call outside the try block of the checker thread", kind="thread")
 
 
+    # ---------------------------------------------------------------- heap frames (modifies clauses over the whole package)
+    # The function contracts reason about these fields modularly: what append_file_hash / _validate_new_hash_list / the
+    # constructors establish is only worth something at commit time if no OTHER function of the package writes the field
+    # in between.  That is the frame half of the contracts ("nothing else changes it"), decided here for every function
+    # of the package - under contract or not - from the AST of the current source: each store to the field (assignment,
+    # augmented assignment, del, setattr with that name, in-place mutation of a list / dict field through a mutator call,
+    # subscript store or del) must sit in a function whose declared frame contains the field.
+    HEAP_FRAMES = {
+        # field: (properties, functions whose frame contains it)
+        "action": (["C04", "C18"], {
+            "ascmhl.hashlist.MHLHashEntry.__init__",
+            "ascmhl.generator.MHLGenerationCreationSession.append_file_hash",
+            "ascmhl.generator.MHLGenerationCreationSession.append_multiple_format_file_hashes",
+            "ascmhl.history.MHLHistory._validate_new_hash_list"}),
+        "hash_string": (["C04", "C07", "C18"], {
+            "ascmhl.hashlist.MHLHashEntry.__init__", "ascmhl.chain.MHLChainGeneration.__init__", "ascmhl.chain_xml_parser.parse"}),
+        "hash_format": (["C04", "C07", "C18"], {
+            "ascmhl.hashlist.MHLHashEntry.__init__", "ascmhl.chain.MHLChainGeneration.__init__", "ascmhl.chain_xml_parser.parse",
+            "ascmhl.hasher.DirectoryHashContext.__init__"}),
+        "structure_hash_string": (["C07"], {
+            "ascmhl.hashlist.MHLHashEntry.__init__", "ascmhl.hashlist_xml_parser.parse",
+            "ascmhl.generator.MHLGenerationCreationSession.append_directory_hashes",
+            "ascmhl.generator.MHLGenerationCreationSession.append_multiple_format_directory_hashes"}),
+        "hash_entries": (["C04", "C18", "C07"], {
+            "ascmhl.hashlist.MHLMediaHash.__init__", "ascmhl.hashlist.MHLMediaHash.append_hash_entry"}),
+        "previous_path": (["C17"], {
+            "ascmhl.hashlist.MHLMediaHash.__init__", "ascmhl.hashlist_xml_parser.parse", "ascmhl.commands.create_for_folder_subcommand"}),
+        "generation_number": (["C06"], {
+            "ascmhl.hashlist.MHLHashList.__init__", "ascmhl.chain.MHLChainGeneration.__init__", "ascmhl.chain_xml_parser.parse",
+            "ascmhl.history.MHLHistory.load_from_path", "ascmhl.history.MHLHistory.load_from_packing_list_path",
+            "ascmhl.history.MHLHistory.write_new_generation"}),
+        "hash_lists": (["C06"], {"ascmhl.history.MHLHistory.__init__", "ascmhl.history.MHLHistory.append_hash_list"}),
+        "media_hashes": (["C02"], {"ascmhl.hashlist.MHLHashList.__init__", "ascmhl.hashlist.MHLHashList.append_hash"}),
+        "media_hashes_path_map": (["C02"], {"ascmhl.hashlist.MHLHashList.__init__", "ascmhl.hashlist.MHLHashList.append_hash"}),
+        "file_size": (["C16"], {
+            "ascmhl.hashlist.MHLMediaHash.__init__", "ascmhl.hashlist_xml_parser.parse",
+            "ascmhl.hashlist.MHLHashList.find_or_create_media_hash_for_path"}),
+        "last_modification_date": (["C16"], {
+            "ascmhl.hashlist.MHLMediaHash.__init__", "ascmhl.hashlist.MHLHashList.find_or_create_media_hash_for_path"}),
+        "child_history_mappings": (["C08"], {"ascmhl.history.MHLHistory.__init__", "ascmhl.history.MHLHistory._update_child_history_mapping"}),
+    }
+    MUTATORS = {"append", "extend", "insert", "remove", "pop", "clear", "sort", "reverse", "update", "setdefault", "popitem", "__setitem__", "__delitem__"}
+
+    def heap_sites(self):
+        """every store to an attribute anywhere in the package: (field, owner qualname, line, how)"""
+        sites = []
+        for mi in self.repo.modules.values():
+            def walk(node, owner):
+                for ch in ast.iter_child_nodes(node):
+                    o = owner
+                    if isinstance(ch, (ast.FunctionDef, ast.AsyncFunctionDef)) and owner.count("<") == 0 and not owner.endswith(")"):
+                        o = owner + "." + ch.name + "()"  # nested functions belong to their outermost function
+                    elif isinstance(ch, (ast.FunctionDef, ast.AsyncFunctionDef)):
+                        o = owner
+                    elif isinstance(ch, ast.ClassDef) and not owner.endswith(")"):
+                        o = owner + "." + ch.name
+                    if isinstance(ch, ast.Attribute) and isinstance(ch.ctx, (ast.Store, ast.Del)):
+                        sites.append((ch.attr, o, ch.lineno, "assignment"))
+                    if isinstance(ch, ast.Subscript) and isinstance(ch.ctx, (ast.Store, ast.Del)) and isinstance(ch.value, ast.Attribute):
+                        sites.append((ch.value.attr, o, ch.lineno, "subscript store"))
+                    if isinstance(ch, ast.Call):
+                        fn = ch.func
+                        if isinstance(fn, ast.Attribute) and fn.attr in self.MUTATORS and isinstance(fn.value, ast.Attribute):
+                            sites.append((fn.value.attr, o, ch.lineno, f"in-place {fn.attr}()"))
+                        if isinstance(fn, ast.Name) and fn.id in ("setattr", "delattr") and len(ch.args) >= 2:
+                            a = ch.args[1]
+                            sites.append((a.value if isinstance(a, ast.Constant) and isinstance(a.value, str) else "*", o, ch.lineno, fn.id))
+                    if isinstance(ch, ast.Attribute) and ch.attr == "__dict__":
+                        sites.append(("*", o, ch.lineno, "__dict__ access"))
+                    if isinstance(ch, ast.AugAssign) and isinstance(ch.target, ast.Attribute):
+                        pass  # the target has Store context: counted above
+                    walk(ch, o)
+            walk(mi.tree, mi.name)
+        return [(f, o[:-2] if o.endswith("()") else o, ln, how) for f, o, ln, how in sites]
+
+    def callers(self, q):
+        if not hasattr(self, "_callers"):
+            self._callers = {}
+            for x, fi in self.repo.funcs.items():
+                for c in self.callees(fi):
+                    self._callers.setdefault(c, set()).add(x)
+            # calls made from module level / nested code that is not an indexed function count as an unknown caller
+        return self._callers.get(q, set())
+
+    def helper_of(self, q, frame, depth=0, seen=()):
+        fi = self.repo.funcs.get(q)
+        if fi is None or depth > 4 or q in seen:
+            return False
+        # a name that is also referenced without being called (passed as a callback, stored) could be invoked from anywhere
+        name = q.split(".")[-1]
+        for mi in self.repo.modules.values():
+            for n in ast.walk(mi.tree):
+                if isinstance(n, (ast.Name, ast.Attribute)) and (getattr(n, "id", None) == name or getattr(n, "attr", None) == name) and isinstance(n.ctx, ast.Load):
+                    par_call = any(isinstance(c, ast.Call) and c.func is n for c in ast.walk(mi.tree))
+                    if not par_call:
+                        return False
+        cs = self.callers(q)
+        if not cs:
+            return False
+        return all(c in frame or self.helper_of(c, frame, depth + 1, tuple(seen) + (q,)) for c in cs)
+
+    def heap_frames(self, pid):
+        sites = self.heap_sites()
+        for field, (props, frame) in self.HEAP_FRAMES.items():
+            if pid not in props:
+                continue
+            mine = [s for s in sites if s[0] == field or s[0] == "*"]
+            q0 = sorted(frame)[0]
+            # vacuity guard: the frame talks about a field the package really writes (a renamed field is `unknown`, not a violation)
+            self.ob(pid, q0, f"heap-frame-of-{field}-is-inhabited", bool([s for s in mine if s[0] == field]),
+                    f"no store to a field named {field} found in the package: the frame table no longer matches the code", unknown=not [s for s in mine if s[0] == field])
+            self.obs[-1]["props"] = list(props)
+            for f, owner, ln, how in mine:
+                # modular frame rule: a writer outside the table is fine if it is a helper whose every caller (over the
+                # call graph of the package, transitively) has the field in its frame - then the store still happens
+                # inside the dynamic extent of a function the table allows (e.g. a helper extracted from append_file_hash)
+                ok = owner in frame or self.helper_of(owner, frame)
+                self.ob(pid, owner, f"heap-frame-{field}@{how.replace(' ', '-')}#{sum(1 for o in self.obs if o['name'].startswith(owner + ':heap-frame-' + field))}", ok,
+                        f"{how} of field `{f}` at line {ln} of {owner}: the field is outside this function's frame; the contracts of "
+                        f"{', '.join(sorted(x.split('.')[-2] + '.' + x.split('.')[-1] for x in frame))} are the only writers the property's argument allows", ln)
+                self.obs[-1]["props"] = list(props)
+
+
     def c06(self):
         pid = "C06"
         q = "ascmhl.utils.datetime_now_filename_string"
@@ -868,6 +991,8 @@ def run(pid, tier, repo_root=None):
         s.c06()
     elif pid == "C16":
         s.c06()
+    if pid in ("C02", "C04", "C06", "C07", "C08", "C16", "C17", "C18"):
+        s.heap_frames(pid)
     return [o for o in s.obs if pid in o["props"]]
 
 
